@@ -1,5 +1,6 @@
 import RegexVerif.Sexp
 import RegexVerif.Model.Scan
+import RegexVerif.Model.Finders
 
 namespace RegexVerif.Driver
 open RegexVerif Sexp RegexVerif.Scan
@@ -34,6 +35,10 @@ def checkShape (rtl : Bool) (n : Nat) (attempt : Nat → Option (Nat × Nat)) : 
     | none => true
     | some (i, l) => if rtl then i + l == p else i == p && decide (i + l ≤ n)
 
+/-- `Scan.FinderSound`: a `false` answer vouches for the positions up to and including the one the
+    finder left — what the scan loop relies on.  (The stronger reading "nothing anywhere ahead" is false
+    of the real anchored finder: right-to-left `abc$` on "xabc\n" answers `(false, end)` at the end while
+    the match sits at `end-1`.) -/
 def checkFinder (rtl : Bool) (n start : Nat) (finder : Nat → Bool × Nat) (attempt : Nat → Option (Nat × Nat)) : Bool :=
   (scanOrder rtl n start).all fun pos =>
     let (f, q) := finder pos
@@ -60,9 +65,151 @@ def spanSexp : Option (Nat × Nat) → Sexp
   | none => .atom "x"
   | some (i, l) => .list [ofNat i, ofNat l]
 
+/-! ### the candidate finders (Model/Finders.lean) on facts exported by the Go side -/
+
+open RegexVerif.Finders in
+/-- `x` ↦ nil; `(tbl D r…)` ↦ the membership test "listed ≠ D" (`D` = the answer for unlisted runes) -/
+def tbl? : Sexp → Option (Option (Nat → Bool))
+  | .atom "x" => some none
+  | .list (.atom "tbl" :: d :: rs) =>
+    match d.bool?, rs.mapM nat? with
+    | some d, some rs => some (some fun c => if rs.contains c then !d else d)
+    | _, _ => none
+  | _ => none
+
+open RegexVerif.Finders in
+def mode? : String → Option Mode
+  | "NoSearch" => some .noSearch
+  | "LeadingAnchor_LeftToRight_Beginning" => some .leadingAnchorLtrBeginning
+  | "LeadingAnchor_LeftToRight_Start" => some .leadingAnchorLtrStart
+  | "LeadingAnchor_LeftToRight_EndZ" => some .leadingAnchorLtrEndZ
+  | "LeadingAnchor_LeftToRight_End" => some .leadingAnchorLtrEnd
+  | "LeadingAnchor_RightToLeft_Beginning" => some .leadingAnchorRtlBeginning
+  | "LeadingAnchor_RightToLeft_Start" => some .leadingAnchorRtlStart
+  | "LeadingAnchor_RightToLeft_EndZ" => some .leadingAnchorRtlEndZ
+  | "LeadingAnchor_RightToLeft_End" => some .leadingAnchorRtlEnd
+  | "TrailingAnchor_FixedLength_LeftToRight_End" => some .trailingAnchorFixedLengthLtrEnd
+  | "TrailingAnchor_FixedLength_LeftToRight_EndZ" => some .trailingAnchorFixedLengthLtrEndZ
+  | "LeadingString_LeftToRight" => some .leadingStringLtr
+  | "LeadingString_RightToLeft" => some .leadingStringRtl
+  | "LeadingString_OrdinalIgnoreCase_LeftToRight" => some .leadingStringOrdinalIgnoreCaseLtr
+  | "LeadingStrings_LeftToRight" => some .leadingStringsLtr
+  | "LeadingStrings_OrdinalIgnoreCase_LeftToRight" => some .leadingStringsOrdinalIgnoreCaseLtr
+  | "LeadingSet_LeftToRight" => some .leadingSetLtr
+  | "LeadingSet_RightToLeft" => some .leadingSetRtl
+  | "LeadingChar_RightToLeft" => some .leadingCharRtl
+  | "FixedDistanceChar_LeftToRight" => some .fixedDistanceCharLtr
+  | "FixedDistanceString_LeftToRight" => some .fixedDistanceStringLtr
+  | "FixedDistanceSets_LeftToRight" => some .fixedDistanceSetsLtr
+  | "LiteralAfterLoop_LeftToRight" => some .literalAfterLoopLtr
+  | "RequiredLandmarkChain_LeftToRight" => some .requiredLandmarkChainLtr
+  | _ => none
+
+open RegexVerif.Finders in
+/-- `(set (chars r…) (neg b) (range lo hi)|(range) (mem <tbl>) (dist d))` -/
+def fdSet? (e : Sexp) : Option FDSet :=
+  match e with
+  | .list (.atom "set" :: fs) =>
+    match (lookup "chars" fs).bind (·.mapM nat?), (lookup "neg" fs).bind (·.head?) |>.bind bool?,
+          lookup "range" fs, (lookup "mem" fs).bind (·.head?) |>.bind tbl?, (lookup "dist" fs).bind (·.head?) |>.bind nat? with
+    | some chars, some neg, some rg, some mem, some d =>
+      let range : Option (Option (Nat × Nat)) :=
+        match rg with
+        | [] => some none
+        | [lo, hi] => match lo.nat?, hi.nat? with
+          | some lo, some hi => some (some (lo, hi))
+          | _, _ => none
+        | _ => none
+      range.map fun range => { chars := chars, negated := neg, range := range, set := mem, distance := d }
+    | _, _, _, _, _ => none
+  | _ => none
+
+open RegexVerif.Finders in
+/-- `(alt (lit r…) (set <tbl>) (lws <tbl>) (tws <tbl>) (min m) (max M) (rb b) (ra b))` -/
+def lmAlt? (e : Sexp) : Option LmAlt :=
+  match e with
+  | .list (.atom "alt" :: fs) =>
+    let one (k : String) : Option Sexp := (lookup k fs).bind (·.head?)
+    match (lookup "lit" fs).bind (·.mapM nat?), (one "set").bind tbl?, (one "lws").bind tbl?, (one "tws").bind tbl?,
+          (one "min").bind nat?, (one "max").bind int?, (one "rb").bind bool?, (one "ra").bind bool? with
+    | some lit, some set, some lws, some tws, some mn, some mx, some rb, some ra =>
+      some { literal := lit, set := set, leadWs := lws, trailWs := tws, minRepeat := mn, maxRepeat := mx, reqBefore := rb, reqAfter := ra }
+    | _, _, _, _, _, _, _, _ => none
+  | _ => none
+
+open RegexVerif.Finders in
+/-- `(finder (rtl b) (anchors B S Z E) (bm ci r…)|(bm) (mode M) (minlen L) (prefix r…) (prefixes (r…)…)
+     (firstrunes r…) (fchar c) (fstring r…) (fdist d) (sets <set>…) (lal (str r…) (ci b) (char c) (chars r…) (loop <tbl>))|(lal)
+     (chain (loop <tbl>) (lm <alt>…)…)|(chain) (fc <tbl>) (lower (r l)…) (text r…) (textstart s))`
+    ↦ `(ok <path> (found q)…)`, the model's `findFirstCharDefault` from every position `0 … n` -/
+def handleFinder (fs : List Sexp) : String :=
+  let one (k : String) : Option Sexp := (lookup k fs).bind (·.head?)
+  let nats (k : String) : Option (List Nat) := (lookup k fs).bind (·.mapM nat?)
+  let bm : Option (Option Bm) :=
+    match lookup "bm" fs with
+    | some [] => some none
+    | some (ci :: pat) => match ci.bool?, pat.mapM nat? with
+      | some ci, some pat => some (some ⟨pat, ci⟩)
+      | _, _ => none
+    | none => none
+  let anchors : Option Anchors :=
+    match (lookup "anchors" fs).bind (·.mapM bool?) with
+    | some [b, s, z, e] => some { beginning := b, start := s, endZ := z, «end» := e }
+    | _ => none
+  let lal : Option (Option LitAfterLoop) :=
+    match lookup "lal" fs with
+    | some [] => some none
+    | some ls =>
+      let o (k : String) : Option Sexp := (lookup k ls).bind (·.head?)
+      match (lookup "str" ls).bind (·.mapM nat?), (o "ci").bind bool?, (o "char").bind nat?,
+            (lookup "chars" ls).bind (·.mapM nat?), (o "loop").bind tbl? with
+      | some str, some ci, some ch, some chars, some loop =>
+        some (some { str := str, strIgnoreCase := ci, char := ch, chars := chars, loopSet := loop })
+      | _, _, _, _, _ => none
+    | none => none
+  let chain : Option (Option LmChain) :=
+    match lookup "chain" fs with
+    | some [] => some none
+    | some cs =>
+      match ((lookup "loop" cs).bind (·.head?)).bind tbl?,
+            (cs.filterMap (tagged? "lm")).mapM (fun alts => alts.mapM lmAlt?) with
+      | some loop, some lms => some (some { loopSet := loop, landmarks := lms })
+      | _, _ => none
+    | none => none
+  let lower : Option (Nat → Nat) :=
+    match (lookup "lower" fs).bind (·.mapM fun e => match e with
+      | .list [a, b] => match a.nat?, b.nat? with
+        | some a, some b => some (a, b)
+        | _, _ => none
+      | _ => none) with
+    | some ps => some fun c => match ps.find? (fun p => p.1 == c) with
+      | some p => p.2
+      | none => c
+    | none => none
+  match (one "rtl").bind bool?, anchors, bm, ((one "mode").bind sym?).bind mode?, (one "minlen").bind nat?,
+        nats "prefix", (lookup "prefixes" fs).bind (·.mapM nats?), nats "firstrunes" with
+  | some rtl, some anchors, some bm, some mode, some minLen, some pre, some pres, some firsts =>
+    match (one "fchar").bind nat?, nats "fstring", (one "fdist").bind nat?, (lookup "sets" fs).bind (·.mapM fdSet?),
+          lal, chain, (one "fc").bind tbl?, lower, nats "text", (one "textstart").bind nat? with
+    | some fchar, some fstring, some fdist, some sets, some lal, some chain, some fc, some lower, some text, some ts =>
+      let o : FindOpts := ⟨mode, minLen, pre, pres, firsts, fchar, fstring, fdist, sets, lal, chain⟩
+      let f : Facts := ⟨rtl, anchors, bm, o, fc, lower⟩
+      let path := match pathOf f with
+        | .anchors => "anchors" | .bmScan => "bm" | .optimized => "opt" | .fc => "fc" | .none => "none"
+      let ans := (List.range (text.length + 1)).map fun pos =>
+        let r := finderDefault f text ts pos
+        Sexp.list [ofBool r.1, ofNat r.2]
+      toString (Sexp.list (.atom "ok" :: .atom path :: ans))
+    | _, _, _, _, _, _, _, _, _, _ => "(bad-op)"
+  | _, _, _, _, _, _, _, _ => "(bad-op)"
+
 /-- `(c03 (n N) (rtl b) (minlen L) (start s) (prevlen k) (row (att found q after)…))` ↦
-    `(ok <scan> <naive> (hyp shape finder after minlen))` -/
+    `(ok <scan> <naive> (hyp shape finder after minlen))`;
+    `(c03 (finder …))` ↦ see `handleFinder` -/
 def handleC03 (args : List Sexp) : String :=
+  match args with
+  | [.list (.atom "finder" :: fs)] => handleFinder fs
+  | _ =>
   let get (key : String) : Option Sexp := (lookup key args).bind (·.head?)
   match (get "n").bind nat?, (get "rtl").bind bool?, (get "minlen").bind nat?, (get "start").bind nat?,
         (get "prevlen").bind int?, (lookup "row" args).bind (·.mapM c03Entry?) with
